@@ -43,7 +43,8 @@ def check_writers(rule) -> List[dict]:
     sites = sorted(set(attribute_stores(rule["attr"])))
     for key, line in sites:
         qual = key.split("::", 1)[1]
-        ok = key in allowed or qual in allowed or any(qual.startswith(a + ".") for a in allowed)
+        ok = key in allowed or qual in allowed or any(qual.startswith(a + ".") for a in allowed) \
+            or any(a.startswith("*.") and qual.endswith(a[1:]) for a in allowed)  # "*.__init__": any constructor
         out.append({"name": f"writers.{rule['attr']}@{qual}:L{line}", "kind": "writers", "label": rule["attr"], "line": line,
                     "path": "-", "status": "discharged" if ok else "failed", "backend": "syntactic", "secs": 0.0,
                     "detail": "" if ok else f"store to .{rule['attr']} in {key} which is not an allowed writer ({sorted(allowed)})",
